@@ -142,6 +142,19 @@ def stepNS (st : NS) (op impl : String) : NS × StepOut :=
     match pid.toNat? with
     | some pid => (st, { model := toString (st.isElected pid) })
     | none => (st, { model := "bad-op" })
+  | ["postauth", pid] =>
+    -- what the session does right after authenticating: is it elected, and what does its
+    -- own CheckSession answer (it stops itself unless the answer lets it continue)
+    match pid.toNat? with
+    | some pid =>
+      let m := match st.postAuthReply pid with
+        | some r => s!"{st.isElected pid} {showReply r}"
+        | none => "none"
+      let orc := match words impl with
+        | ["true", r] => if r == "noOther" || r == "thisContinues" then [] else ["elected-session-told-to-stop"]
+        | _ => []
+      (st, { model := m, oracle := orc, nontrivial := true })
+    | none => (st, { model := "bad-op" })
   | ["close", pid] =>
     match pid.toNat? with
     | some pid => ({ st with sessions := st.sessions.filter (·.id != pid) }, { model := "ok" })
@@ -157,7 +170,7 @@ def step (ds : DS) (op impl : String) : DS × StepOut :=
     let ready := if impl == "true" then (pid.toNat?.map (· :: ds.readyImpl)).getD ds.readyImpl else ds.readyImpl
     let orc := if readyOk ns' ready then [] else ["two-ready-sessions-for-one-peer-on-acceptor"]
     ({ ns := ns', readyImpl := ready }, { out with oracle := out.oracle ++ orc })
-  | "visible" :: _ | "checkc" :: _ | "checks" :: _ | "elect" :: _ | "world" :: _ | "e2e" :: _ | "ni" :: _ => ({ ds with ns := ns' }, out)
+  | "visible" :: _ | "checkc" :: _ | "checks" :: _ | "elect" :: _ | "world" :: _ | "e2e" :: _ | "ni" :: _ | "postauth" :: _ => ({ ds with ns := ns' }, out)
   | _ => ({ ns := ns', readyImpl := [] }, out)
 
 def run (ops impl : Array String) : IO Tally :=
